@@ -4,6 +4,8 @@ import (
 	"fmt"
 	"os"
 	"sort"
+	"sync"
+	"sync/atomic"
 	"testing"
 
 	apierrors "k8s.io/apimachinery/pkg/api/errors"
@@ -134,6 +136,51 @@ func execC03c(cs *c03cScenario, c *ev.Ctx) {
 	for pool, lim := range limits {
 		judged[pool] = count(pool) <= lim
 	}
+	// one permanent monitor, armed by the interleave steps (the monitor list itself is never modified while controllers run)
+	armed, fired, armedExtra := false, false, ""
+	var interleaveMu sync.Mutex // the disruption controller starts its commands in parallel goroutines
+	var interleaveBusy atomic.Bool
+	w.Monitors = append(w.Monitors, func(_ *sim.World, cl *sim.Call) {
+		if interleaveBusy.Load() {
+			return // a write of the interleaved static provisioning itself, or of a parallel worker meanwhile
+		}
+		interleaveMu.Lock()
+		if !armed || fired || !r.inCtrl.Load() {
+			interleaveMu.Unlock()
+			return
+		}
+		// ... the first write issued while some static pool has a NodeClaim pending disruption
+		held := false
+		for _, n := range poolNames {
+			if _, _, p := w.Cluster.NodePoolState.GetNodeCount(n); p > 0 {
+				held = true
+			}
+		}
+		if !held {
+			interleaveMu.Unlock()
+			return
+		}
+		fired = true
+		interleaveBusy.Store(true)
+		interleaveMu.Unlock()
+		defer interleaveBusy.Store(false)
+		was := r.inCtrl.Load()
+		r.inCtrl.Store(false)
+		before := len(w.ListNodeClaims())
+		if os.Getenv("VERIF_DBG") != "" {
+			for _, n := range poolNames {
+				a, d, p := w.Cluster.NodePoolState.GetNodeCount(n)
+				fmt.Printf("C03DBG step %d %s pool %s active=%d deleting=%d pending=%d replicas=%v limit=%d call=%s\n", r.step, armedExtra, n, a, d, p, *getPool(n).Spec.Replicas, limits[n], cl.String())
+			}
+		}
+		provisionAll(armedExtra == "interleaveFailCreate")
+		if armedExtra == "interleaveFailCreate" {
+			provisionAll(false) // the failed reconcile is retried while the disruption pass is still going
+		}
+		staticCreates += len(w.ListNodeClaims()) - before
+		r.inCtrl.Store(was)
+		c.Class("static_provisioning_interleaved")
+	})
 	replaced, atLimit := false, false
 	for i, st := range s.Steps {
 		r.step = i
@@ -216,41 +263,9 @@ func execC03c(cs *c03cScenario, c *ev.Ctx) {
 			}
 			// the static provisioning controller runs WHILE the disruption controller is in the middle of a pass: at
 			// the instant of its first API write (StaticDrift holds its node-count reservation by then)
-			fired := false
-			w.Monitors = append(w.Monitors, func(_ *sim.World, cl *sim.Call) {
-				if fired || !r.inCtrl.Load() {
-					return
-				}
-				// ... the first write issued while some static pool has a NodeClaim pending disruption
-				held := false
-				for _, n := range poolNames {
-					if _, _, p := w.Cluster.NodePoolState.GetNodeCount(n); p > 0 {
-						held = true
-					}
-				}
-				if !held {
-					return
-				}
-				fired = true
-				was := r.inCtrl.Load()
-				r.inCtrl.Store(false)
-				before := len(w.ListNodeClaims())
-				if os.Getenv("VERIF_DBG") != "" {
-					for _, n := range poolNames {
-						a, d, p := w.Cluster.NodePoolState.GetNodeCount(n)
-						fmt.Printf("C03DBG step %d %s pool %s active=%d deleting=%d pending=%d replicas=%v limit=%d call=%s\n", i, extra, n, a, d, p, *getPool(n).Spec.Replicas, limits[n], cl.String())
-					}
-				}
-				provisionAll(extra == "interleaveFailCreate")
-				if extra == "interleaveFailCreate" {
-					provisionAll(false) // the failed reconcile is retried while the disruption pass is still going
-				}
-				staticCreates += len(w.ListNodeClaims()) - before
-				r.inCtrl.Store(was)
-				c.Class("static_provisioning_interleaved")
-			})
+			armed, fired, armedExtra = true, false, extra
 			r.disruptOnce(nil)
-			w.Monitors = w.Monitors[:len(w.Monitors)-1]
+			armed = false
 		}
 		if extra != "" {
 			// the extra step replaces the drawn one
